@@ -868,6 +868,12 @@ func (h *Hist) act(name string, fees []uint) {
 		}
 		h.Reconfigure(c)
 	case "rotate":
+		if h.proj != 0 && h.rng.Intn(12) == 0 {
+			// a fee the keysets table cannot hold (only a library user can ask for it: the admin RPC stops at 2^63-1)
+			h.OpRotate(mode{}, []uint{1 << 63, ^uint(0)}[h.rng.Intn(2)])
+			h.OpRestart(fees[h.rng.Intn(len(fees))], false)
+			return
+		}
 		h.OpRotate(mode{}, fees[h.rng.Intn(len(fees))])
 	case "admin":
 		h.actAdmin(fees)
